@@ -275,6 +275,10 @@ func genBankroll(rt *rapid.T, c *Cfg, pr Profile) int64 {
 	case 7:
 		b = c.Ante + c.DB + jit()
 	}
+	if rapid.IntRange(0, 49).Draw(rt, "highRoller") == 0 {
+		// chips beyond 2^53 are still integers
+		b = int64(1)<<53 + int64(rapid.IntRange(1, 999).Draw(rt, "highRollerOdd"))
+	}
 	if b <= 0 {
 		b = 1
 	}
